@@ -327,6 +327,20 @@ def number_groups(r, st):
         number_groups(r['r'], st)
 
 
+def re_literals(r):
+    """the characters a pattern mentions"""
+    t = r['t']
+    if t == 'lit':
+        return {chr(r['c'])}
+    if t == 'cls':
+        return {chr(c) for c in r['cs']}
+    out = set()
+    for k in ('a', 'b', 'r'):
+        if k in r:
+            out |= re_literals(r[k])
+    return out
+
+
 def gen_pattern(rng):
     ast = gen_re(rng, rng.choice([1, 2, 2, 3, 3]))
     st = dict(n=0, names=[], free=list(GROUP_NAMES))
@@ -683,12 +697,13 @@ def same(a, b):
 def judge(c, drv):
     """(kind, message) or None for one case, all three parties run here (used for shrinking / replay)"""
     real, orc = run_real(c), run_oracle(c)
-    if not same(real, orc):
-        return 'oracle', describe(c, real, orc, None)
+    mod = None
     if drv is not None:
         mod = model_outcome(drv.ask(dict(p='C19', cases=[case_for_model(c)]))['r'][0], c['f'] == 'characters')
-        if not same(real, mod):
-            return 'mismatch', describe(c, real, orc, mod)
+    if not same(real, orc):
+        return 'oracle', describe(c, real, orc, mod)
+    if mod is not None and not same(real, mod):
+        return 'mismatch', describe(c, real, orc, mod)
     return None
 
 
@@ -760,17 +775,18 @@ def rstr(rng, maxlen=6):
 
 
 def gen_index_cases(tier):
-    """substring / indexOf / lastIndexOf: EVERY start in [-len, len+2] and length in [-2, len+2]"""
+    """substring / indexOf / lastIndexOf: EVERY start in [-len, len+2] and length in [-2, len+2], for every
+    string up to length 4 (thorough: 5) over a small alphabet"""
     out = []
-    for s in all_strings(['a', 'b', ' '], 4 if tier != 'quick' else 3) + (
-            [] if tier != 'quick' else [x for x in all_strings(['a', 'b'], 4) if len(x) == 4]):
+    top = 4 if tier == 'quick' else 5
+    for s in all_strings(['a', 'b', ' '], 4) + ([x for x in all_strings(['a', 'b'], 5) if len(x) == 5] if top == 5 else []):
         n = len(s)
         for st in range(-n, n + 3):
             out.append(dict(f='substring', a=[s, st], form=st))
             for ln in range(-2, n + 3):
                 out.append(dict(f='substring', a=[s, st, ln], form=st + ln))
     subs = ['', 'a', 'b', 'ab', 'ba', 'aa']
-    for s in all_strings(['a', 'b'], 4 if tier != 'quick' else 3) + (['abab', 'aaaa', 'baab'] if tier == 'quick' else []):
+    for s in all_strings(['a', 'b'], top):
         n = len(s)
         for sub in subs:
             for f in ('indexOf', 'lastIndexOf'):
@@ -877,8 +893,9 @@ def gen_regex_cases(rng, n):
             re.compile(pat['text'])
         except re.error:      # the renderer keeps to valid syntax; anything else is not part of the family
             continue
+        lits = sorted(re_literals(pat['ast'])) or ['a']
         for fl in range(8):                      # all 8 flag combinations of every pattern
-            s = rand_str(rng, RE_LITS[:3] if rng.random() < 0.5 else RE_LITS, 6)
+            s = rand_str(rng, rng.choice([RE_LITS[:3], RE_LITS, lits + ['a'], lits + ['a', 'b', '\n']]), 6)
             f = rng.choice(['re.matches', 're.notMatches', 're.search', 're.search', 're.searchAll', 're.searchAll',
                             're.split', 're.replace', 're.replaceBy', 're.replaceBy'])
             c = dict(f=f, ast=pat['ast'], ng=pat['ng'], names=pat['names'], ptext=pat['text'], s=s,
@@ -914,7 +931,7 @@ def features(c):
 def run(env, res):
     drv, tier = env['driver'], env['tier']
     rng = common.make_rng(env['seed'], 'C19')
-    res.rule = ('index functions: every string over {a,b,space} up to length 3 (thorough 4) with EVERY start in '
+    res.rule = ('index functions: every string over {a,b,space} / {a,b} up to length 4 (thorough 5) with EVERY start in '
                 '[-len, len+2] and length in [-2, len+2]; other string functions: random arguments over '
                 '{a,b,space,comma} + Unicode / whitespace samples, length <= 6, overlapping replacement keys; regex: '
                 'random patterns of the generated family, each under all 8 flag combinations, random selectors over '
@@ -926,9 +943,9 @@ def run(env, res):
     else:
         quick = tier == 'quick'
         cases = gen_index_cases(tier)
-        cases += gen_string_cases(rng, 12000 if quick else 150000)
-        cases += gen_regex_cases(rng, 6000 if quick else 90000)
-    hist, outcomes, feats = {}, {}, {}
+        cases += gen_string_cases(rng, 30000 if quick else 300000)
+        cases += gen_regex_cases(rng, 16000 if quick else 160000)
+    hist, outcomes, feats, wins, nmatch, lens = {}, {}, {}, {}, {}, {}
     # real code and oracle: in worker processes (the evaluation of one yaql expression costs 0.5-4 ms)
     nproc = 1 if len(cases) < 50 else max(1, min(8, (os.cpu_count() or 2) - 2))
     chunks = [cases[i:i + 200] for i in range(0, len(cases), 200)]
@@ -953,7 +970,20 @@ def run(env, res):
         outcomes[oc] = outcomes.get(oc, 0) + 1
         for ft in features(c):
             feats[ft] = feats.get(ft, 0) + 1
+        if f in ('substring', 'indexOf', 'lastIndexOf') and len(c['a']) > 2 - (f == 'substring'):
+            n_ = len(c['a'][0])
+            st = c['a'][1 if f == 'substring' else 2]
+            hk = 'start:' + ('negative' if st < 0 else 'zero' if st == 0 else 'inside' if st < n_ else 'at-end' if st == n_ else 'beyond')
+            wins[hk] = wins.get(hk, 0) + 1
+            if len(c['a']) > 3 - (f == 'substring'):
+                ln = c['a'][-1]
+                hk = 'length:' + ('negative' if ln < 0 else 'zero' if ln == 0 else 'within' if st + ln <= n_ else 'beyond')
+                wins[hk] = wins.get(hk, 0) + 1
+        if f == 're.searchAll' and real[0] == 'v':
+            hk = min(len(real[1].get('li', [])), 6)
+            nmatch[hk] = nmatch.get(hk, 0) + 1
         subject = c['s'] if f.startswith('re.') else next((x for x in c['a'] if isinstance(x, str)), '')
+        lens[len(subject)] = lens.get(len(subject), 0) + 1
         text, data = case_expr(c)
         res.case(common.digest(repr((text, data))), nontrivial=bool(subject),
                  sample=dict(expr=text, data=data, result=show(real)) if k % 2999 == 0 else None)
@@ -972,6 +1002,9 @@ def run(env, res):
     res.extra['function_histogram'] = hist
     res.extra['outcome_histogram'] = outcomes
     res.extra['regex_features'] = feats
+    res.extra['index_argument_classes'] = wins
+    res.extra['searchAll_match_counts'] = {('%d' % k if k < 6 else '6+'): v for k, v in sorted(nmatch.items())}
+    res.extra['subject_length_histogram'] = {str(k): v for k, v in sorted(lens.items())}
     res.extra['workers'] = nproc
     return res
 
